@@ -130,6 +130,16 @@ def run(chk: Check, model):
         ok = ret[0] == "call" and T.call_name(ret) == "equinox.tree_at" and len(ret[2]) == 3 and ret[2][0] == S("self.where") and ret[2][1] == p \
             and ret[2][2][0] == "call" and T.call_name(ret[2][2]) == f"self.{fn}" and ret[2][2][2] == (p,)
         chk.add("C17.pairs", f"Shared.{name}", ok, f"Shared.{name} = {T.show(ret)[:140]}, expected eqx.tree_at(self.where, params, self.{fn}(params), ...)", chk.loc(fs))
+    # Shared.init keeps the three functions it is given; without an inverse, inv puts None back at `where` (what the shared values were
+    # before apply: one None for the selected node, whatever it is)
+    fsi, rsi = _ret(model, "base.Shared.init")
+    okf = rsi.ret[0] == "obj" and rsi.ret[1] == "Shared" and all(dict(rsi.ret[2]).get(k) == S(k) for k in ("where", "replace_fn", "inverse_fn"))
+    a_ = fsi.node.args
+    dflt = dict(zip([x.arg for x in a_.args][len(a_.args) - len(a_.defaults):], a_.defaults)).get("inverse_fn")
+    import ast as _ast
+    okd = isinstance(dflt, _ast.Lambda) and len(dflt.args.args) == 1 and isinstance(dflt.body, _ast.Constant) and dflt.body.value is None
+    chk.add("C17.pairs", "Shared.init keeps where / replace_fn / inverse_fn; the default inverse returns None", bool(okf and okd),
+            f"Shared.init returns {T.show(rsi.ret)[:160]} with default inverse_fn = {_ast.unparse(dflt) if dflt is not None else None}; expected the given functions, default `lambda tree: None`", chk.loc(fsi))
     fx, rx = _ret(model, "base.Extend.extend")
     ext = T.mk_call("rex.jax_utils.tree_extend", [S("self.base_params"), p])
     want = T.mk_ite(T.eq(ext, T.NONE, numeric=False), S("self.base_params"), ext)
